@@ -2,3 +2,6 @@ import SmtpV.Props.C07
 #print axioms SmtpV.Props.C07.C07_data_cut
 #print axioms SmtpV.Props.C07.C07_eof_complete
 #print axioms SmtpV.Props.data_monitor_accepts_model
+#print axioms SmtpV.Props.C07.C07_bdat_eof_only_after_last
+#print axioms SmtpV.Props.C07.C07_abandoned_is_reset
+#print axioms SmtpV.Props.C07.C07_reset_close_no_eof
